@@ -166,6 +166,8 @@ def check(item, tier):
         warnings.simplefilter('ignore')
         np.seterr(all='ignore')
         mdp = build.SpecMDP(spec, SLAB[li], ALAB[li])
+        sib_T = tuple(tuple((a, d, (tuple(x - 3 for x in rw) if isinstance(rw, tuple) else rw - 3)) for a, d, rw in row) for row in spec_item[2])
+        sibling = build.SpecMDP(Spec(spec_item[:2] + (sib_T, tuple(sorted(set(spec_item[3]) | {spec.n - 1}))) + spec_item[4:]), SLAB[li], ALAB[li])
         for hk in HEUR:
             h = make_heuristic(hk, spec, V, mdp)
             for fl in flagset:
@@ -188,10 +190,20 @@ def check(item, tier):
                                 lviol.append(('value_below_optimum_during_search',
                                               {'s': mdp.s_of[s], 'value': float(n['value']), 'Vstar': V[mdp.s_of[s]], 'iteration': lv['i']}))
 
+                reuse = (HEUR.index(hk) + fl) % 2 == 1
+
                 def body(rng, seed=0):
-                    del lviol[:]
                     planner = LAOStar(heuristic=h, randomize_action_order=rao, randomize_nextstate_order=rns,
                                       event_listener_class=Listener, seed=seed, max_lao_star_iterations=200)
+                    if reuse:
+                        # planner objects are reusable: the same instance first plans a sibling problem (rewards lowered,
+                        # one more absorbing state) under default answers that are not explored
+                        with patched_random(Explorer(bound=0, max_points=400)):
+                            try:
+                                planner.plan_on(sibling)
+                            except BaseException:
+                                pass
+                    del lviol[:]
                     return planner.plan_on(mdp)
 
                 if spec.n <= 2:
